@@ -100,6 +100,9 @@ func TestRun(t *testing.T) {
 					msg := fmt.Sprint(r)
 					if strings.Contains(msg, "deadlock") {
 						st.Deadlocks++
+						if st.Deadlocks <= 1 && os.Getenv("VERIF_DEBUG") != "" {
+							fmt.Fprintln(os.Stderr, msg)
+						}
 						tw.Log(trace.E{"ev": "leak", "msg": "bubble deadlock: goroutines left blocked at the end of the execution"})
 						return
 					}
@@ -126,6 +129,10 @@ func TestRun(t *testing.T) {
 				}
 				used = d.Run(x, raw)
 				stuck := x.StopClients()
+				if os.Getenv("VERIF_DEBUG") == "2" {
+					buf := make([]byte, 1<<20)
+					fmt.Fprintf(os.Stderr, "=== run %d goroutines\n%s\n", run, buf[:runtime.Stack(buf, true)])
+				}
 				tw.Log(trace.E{"ev": "end", "steps": x.Steps, "stuck": append([]string{}, stuck...), "labels": append([]string{}, x.Labels...), "scenario": used, "followed": x.SchedDone()})
 			})
 		}()
